@@ -221,6 +221,11 @@ class NotifyFieldUpdates(Contract):
 from contracts import c08_protect as _c08   # noqa: E402  pylint: disable=wrong-import-position
 
 
+DELEGATES = ('pyglove.core.symbolic.list:List.extend', 'pyglove.core.symbolic.list:List.clear',
+             'pyglove.core.symbolic.list:List.append', 'pyglove.core.symbolic.list:List.insert',
+             'pyglove.core.symbolic.dict:Dict.update', 'pyglove.core.symbolic.dict:Dict.clear')
+
+
 class _Dispatch(_c08._Dom):
   prop = 'C09'
   kind = 'dispatch'
@@ -259,6 +264,24 @@ class _Dispatch(_c08._Dom):
       policy.contracts[f'{q}._set_item_without_permission_check'] = primitive
     policy.handlers[('truth', base.FieldUpdate)] = lambda interp, v: True
 
+    # a mutator that delegates to another public mutator of the same receiver
+    # (`l *= n` -> extend / clear): the callee is used by ITS contract of this
+    # family -- if it writes, it dispatches exactly once when notification is
+    # enabled and not at all when it is disabled
+    def delegated(q):
+      def h(interp, frame, args, kwargs):
+        interp.path.event('delegated', q, None)
+        if interp.path.decide(2, 'delegated-mutator-changes-nothing') == 1:
+          return None
+        interp.path.event('prim-write', q, None)
+        if interp.truth(enabled(interp, (), {}, frame)):
+          interp.path.event('notify', f'{q} -> _notify_field_updates', None)
+        return None
+      return h
+    for q in DELEGATES:
+      if q != self.target:
+        policy.contracts[q] = delegated(q)
+
   def trace_one_dispatch_after_the_writes_none_when_disabled(self, events, outcome, interp, env):
     if outcome[0] != 'return':
       return True
@@ -281,7 +304,8 @@ _NATIVE_OPS = {
     'List.append': lambda r: r.l.append(5), 'List.extend': lambda r: r.l.extend([5, 6]),
     'List.insert': lambda r: r.l.insert(0, 5), 'List.__setitem__': lambda r: r.l.__setitem__(0, 5),
     'List.__delitem__': lambda r: r.l.__delitem__(0), 'List.pop': lambda r: r.l.pop(0),
-    'List.__iadd__': lambda r: r.l.__iadd__([5, 6]),
+    'List.__iadd__': lambda r: r.l.__iadd__([5, 6]), 'List.__imul__': (lambda r: r.l.__imul__(3), lambda r: r.l.__imul__(0), lambda r: r.l.__imul__(2)),
+    'List.__imul__[n=3]': lambda r: r.l.__imul__(3),
     'Dict.__setitem__': lambda r: r.d.__setitem__('a', 5), 'Dict.__delitem__': lambda r: r.d.__delitem__('a'),
     'Dict.pop': lambda r: r.d.pop('a'), 'Dict.popitem': lambda r: r.d.popitem(),
     'Dict.setdefault': lambda r: r.d.setdefault('zz', 5), 'Dict.update': lambda r: r.d.update({'a': 5}, b=6),
@@ -297,19 +321,20 @@ def _dispatch_replay(self, obligation, m):
   if op is None:
     return dict(outcome='not-concretizable', detail='no native operation registered')
   bad = []
-  for enabled in (True, False):
-    calls = []
-    r = pg.Dict(l=pg.List([1, 2]), d=pg.Dict(a=1), o=_O(), onchange_callback=lambda updates: calls.append(sorted(str(k) for k in updates)))
-    r.sym_nondefault(); r.sym_missing()
-    with pg.notify_on_change(enabled), pg.allow_writable_accessors(True):
-      op(r)
-    want = 1 if enabled else 0
-    if len(calls) != want:
-      bad.append(f'{key} with notification {"enabled" if enabled else "disabled"}: the root received {len(calls)} change events {calls}, want {want}')
+  for k_op, one in enumerate(op if isinstance(op, tuple) else (op,)):
+    for enabled in (True, False):
+      calls = []
+      r = pg.Dict(l=pg.List([1, 2]), d=pg.Dict(a=1), o=_O(), onchange_callback=lambda updates: calls.append(sorted(str(k) for k in updates)))
+      r.sym_nondefault(); r.sym_missing()
+      with pg.notify_on_change(enabled), pg.allow_writable_accessors(True):
+        one(r)
+      want = 1 if enabled else 0
+      if len(calls) != want:
+        bad.append(f'{key} (operation #{k_op}) with notification {"enabled" if enabled else "disabled"}: the root received {len(calls)} change events {calls}, want {want}')
   return dict(outcome='reproduced' if bad else 'not-reproduced', detail='; '.join(bad) or 'one event when enabled, none when disabled')
 
 
-def _dispatch(name, cls, method, build):
+def _dispatch(name, cls, method, build, tag=''):
   tgt_cls = next((k for k in cls.__mro__ if method in k.__dict__), None)
   target = f'{tgt_cls.__module__}:{tgt_cls.__qualname__}.{method}'
 
@@ -317,7 +342,7 @@ def _dispatch(name, cls, method, build):
     args = dict(self=self.receiver(b))
     args.update(build(b))
     return args, {}
-  c = type(name, (_Dispatch,), dict(target=target, name=f'{cls.__name__}.{method}/dispatch', receiver_cls=cls,
+  c = type(name, (_Dispatch,), dict(target=target, name=f'{cls.__name__}.{method}{tag}/dispatch', receiver_cls=cls,
                                     inputs=inputs, replay=_dispatch_replay, __module__=__name__))
   globals()[name] = c
   return register(c)
@@ -331,6 +356,8 @@ _dispatch('DispatchListSetItem', pg.List, '__setitem__', lambda b: dict(index=b.
 _dispatch('DispatchListDelItem', pg.List, '__delitem__', lambda b: dict(index=b.int('index')))
 _dispatch('DispatchListPop', pg.List, 'pop', lambda b: dict(index=b.int('index')))
 _dispatch('DispatchListIAdd', pg.List, '__iadd__', lambda b: dict(other=[b.any('x0'), b.any('x1')]))
+_dispatch('DispatchListIMul', pg.List, '__imul__', lambda b: dict(n=b.int('n')))
+_dispatch('DispatchListIMul3', pg.List, '__imul__', lambda b: dict(n=3), tag='[n=3]')   # a repetition loop shows at a concrete n
 _dispatch('DispatchDictSetItem', pg.Dict, '__setitem__', _dany('key', 'value'))
 _dispatch('DispatchDictDelItem', pg.Dict, '__delitem__', _dany('name'))
 _dispatch('DispatchDictPop', pg.Dict, 'pop', _dany('key'))
